@@ -124,6 +124,10 @@ type exec struct {
 
 	known         map[*Term]bool
 	ubounds       map[*Term]uint64 // unsigned upper bounds of input variables (from assumptions)
+	lbounds       map[*Term]uint64
+	fromInts      map[*Term]*Term // integer term -> its decimal text term
+	fallback      func() *Solver
+	fallbackHits  int
 	knownHits     int
 	local         *localCtx
 	unknownBranch bool
@@ -177,6 +181,21 @@ func (ex *exec) learn(t *Term, v bool) {
 		}
 		if old, ok := ex.ubounds[t.Args[0]]; !ok || ub < old {
 			ex.ubounds[t.Args[0]] = ub
+		}
+	}
+	if t.Op == "<" && t.S == sBool {
+		// integer bounds of nat-encoded inputs
+		x, c := t.Args[0], t.Args[1]
+		if x.Op == "var" && c.IsConst() && c.Str == "" {
+			if v { // x < c
+				if old, ok := ex.ubounds[x]; (!ok || c.U-1 < old) && c.U > 0 {
+					ex.ubounds[x] = c.U - 1
+				}
+			} else { // x >= c
+				if old, ok := ex.lbounds[x]; !ok || c.U > old {
+					ex.lbounds[x] = c.U
+				}
+			}
 		}
 	}
 	switch t.Op {
@@ -290,10 +309,10 @@ func (ex *exec) decide(c *Term) bool {
 		ex.trace = append(ex.trace, dec{'b', b2u(v)})
 		return v
 	}
-	rt, _ := ex.solver.Check(c, nil)
+	rt, _ := ex.check(c, nil)
 	rf := "sat" // the path condition is satisfiable, so if c is impossible ¬c is possible
 	if rt != "unsat" {
-		rf, _ = ex.solver.Check(tNot(c), nil)
+		rf, _ = ex.check(tNot(c), nil)
 	}
 	if rt == "unknown" || rf == "unknown" {
 		ex.unknownBranch = true
@@ -362,7 +381,7 @@ func (ex *exec) concretize(t *Term, site string) uint64 {
 		if ex.concCount[site] > ex.cfg.MaxConcretize {
 			ex.abort("unwind", "more than %d concrete values for a symbolic index/length at %s", ex.cfg.MaxConcretize, site)
 		}
-		res, model := ex.solver.Check(nil, []*Term{t})
+		res, model := ex.check(nil, []*Term{t})
 		if res == "unsat" {
 			ex.abort("infeasible", "no further value")
 		}
@@ -426,7 +445,7 @@ func (ex *exec) modelInputs(extra *Term) (string, []replayInput) {
 			terms = append(terms, in.term)
 		}
 	}
-	res, model := ex.solver.Check(extra, terms)
+	res, model := ex.check(extra, terms)
 	if res != "sat" {
 		return res, nil
 	}
@@ -452,12 +471,16 @@ func (ex *exec) modelInputs(extra *Term) (string, []replayInput) {
 			case 'B':
 				ri.Value = raw
 			case 'I':
-				// identifier: integer -> 32 hex digits
 				bi, ok := new(big.Int).SetString(strings.TrimSpace(raw), 10)
 				if !ok {
 					bi = new(big.Int)
 				}
-				ri.Value = fmt.Sprintf("%032x", bi)
+				if in.Kind == "uid" {
+					// identifier: integer -> 32 hex digits
+					ri.Value = fmt.Sprintf("%032x", bi)
+				} else {
+					ri.Value = bi.String()
+				}
 			case 'S':
 				ri.Value = unquoteSMT(raw)
 			default:
@@ -693,4 +716,29 @@ func (ex *exec) wrapCompare(op string, a, b *Term) *Term {
 		return tBVCmp("bvule", x, y)
 	}
 	return nil
+}
+
+// check decides path ∧ extra with the worker's primary solver and, if that
+// answers unknown, with the fallback solver (a different implementation: the
+// string/integer queries z3 gives up on are usually easy for cvc5 and vice
+// versa).  The fallback gets the whole path condition in a fresh context.
+func (ex *exec) check(extra *Term, want []*Term) (string, map[string]string) {
+	res, model := ex.solver.Check(extra, want)
+	if res != "unknown" || ex.fallback == nil {
+		return res, model
+	}
+	fb := ex.fallback()
+	if fb == nil {
+		return res, model
+	}
+	fb.Reset()
+	for _, t := range ex.pathCond {
+		fb.Assert(t)
+	}
+	r2, m2 := fb.Check(extra, want)
+	if r2 != "unknown" {
+		ex.fallbackHits++
+		return r2, m2
+	}
+	return res, model
 }
